@@ -148,7 +148,11 @@ func (c05) Gen(r *simrt.Rand, idx int, tier string) *Case {
 	}
 	mapSeed := r.U64()
 	for i := 0; i < nv; i++ {
-		c.Ls = append(c.Ls, RandLayout(r, c.J, 9))
+		if i == 0 && idx%3 == 2 {
+			c.Ls = append(c.Ls, WideLayout(r, c.J))
+		} else {
+			c.Ls = append(c.Ls, RandLayout(r, c.J, 9))
+		}
 		s := RandSched(r)
 		s.MapMode, s.MapSeed = 4, mapSeed // map order held equal across the layouts compared
 		c.Scheds = append(c.Scheds, s)
